@@ -1,5 +1,6 @@
 """C02 — hostile bytes never kill or desynchronise a reader (exception containment, framing order)."""
 from __future__ import annotations
+import re
 from .common import *
 
 PRIM = 'protocol/primitives.py'
@@ -212,6 +213,8 @@ def run(eng: Engine, ck: Check):
     ok = any(call_name(x) == '_read' and x.args and call_name(x.args[0]) == '_read_message' and unparse(kw(x, 'timeout')) == 'self.read_timeout' for x in calls_in(rcvm.node))
     ck.ob('R-C02-FRAME', rcvm, rcvm.node, 'receive_message = _read(_read_message(), timeout=read_timeout)', ok, '', construct='receive_message shape')
 
+    logger_adapter_total(eng, ck)
+
     # ---- R-C02-PARSER-TOTAL
     n_loops = 0
     for f in repo.all_funcs():
@@ -284,3 +287,34 @@ def run(eng: Engine, ck: Check):
               f'reads with {[unparse(x.func) for x in soft] or "something other than struct unpack"}: past the end of the frame it returns a value, '
               '`for _ in range(count)` believes any count (4 billion iterations of the reader task for a 12-byte frame)', construct=f'{ci.name}.deserialize raises on short data')
     ck.floor('R-C02-PARSER-TOTAL.leaf_readers', n_leaf, 7)
+
+
+def logger_adapter_total(eng: Engine, ck: Check, rule: str = 'R-C02-ESCAPE'):
+    """R-C02-ESCAPE (logging): every `adapter.debug / warning / exception(.., extra=self.__dict__)` of the connection code runs
+    ConnectionLoggerAdapter.process IN THE CALLER'S FRAME, outside the logging handlers' own error handling: what process() raises leaves
+    the reader loop / on_peer_accepted / disconnect() like any other exception.  Its inputs are connection attributes, some of them
+    peer-supplied (connection_type is the `typ` of the PeerInit message).  So process() only uses formatting that is total on any value:
+    f-string fields without format spec, %s / %r / %a, str.join -- no %c / %d / %x .. (TypeError / ValueError on a string of the wrong
+    shape), no format spec, no int() / indexing of the values."""
+    ci = eng.repo.find_cls('ConnectionLoggerAdapter', 'log_utils.py')
+    if ci is None or 'process' not in ci.methods:
+        raise AnalysisError('anchor vanished: log_utils.py:ConnectionLoggerAdapter.process')
+    m = ci.methods['process']
+    ck.visited(m)
+    bad = []
+    for n in walk_local(m.node):
+        if isinstance(n, ast.BinOp) and isinstance(n.op, ast.Mod) and isinstance(const(n.left), str):
+            convs = re.findall(r'%(?:\([^)]*\))?[#0\- +]*(?:\*|\d+)?(?:\.(?:\*|\d+))?[hlL]?([a-zA-Z%])', const(n.left))
+            partial_ = [c for c in convs if c not in ('s', 'r', 'a', '%')]
+            if partial_:
+                bad.append(f'`{unparse(n)[:60]}` uses %{partial_[0]}')
+        if isinstance(n, ast.FormattedValue) and n.format_spec is not None:
+            bad.append(f'format spec in `{unparse(n)[:40]}`')
+        if isinstance(n, ast.Call) and ((isinstance(n.func, ast.Attribute) and n.func.attr == 'format') or (isinstance(n.func, ast.Name) and n.func.id in ('int', 'float', 'chr', 'ord', 'format'))):
+            bad.append(f'`{unparse(n)[:50]}`')
+        if isinstance(n, ast.Subscript) and not isinstance(const(n.slice), str) and not (isinstance(n.value, ast.Name) and n.value.id == 'kwargs'):
+            bad.append(f'indexing `{unparse(n)[:40]}`')
+    ck.ob(rule, m, m.node, 'ConnectionLoggerAdapter.process formats connection attributes with total operations only (it runs in the frame of every log call of the '
+          'reader loop, the accept path and disconnect())', not bad,
+          f'{bad[:2]}: raises for a value of the wrong shape (a PeerInit `typ` that is not one character); the exception is none of the read / decode errors the reader loop '
+          'handles: the reader task ends, the connection stays open and unread', construct='logger adapter total')
